@@ -13,6 +13,28 @@ thread_local! {
     static IC_HITS: Cell<u64> = const { Cell::new(0) };
     static IC_MISSES: Cell<u64> = const { Cell::new(0) };
     static IC_STORES: Cell<u64> = const { Cell::new(0) };
+    static NO_CONST_CACHE: Cell<bool> = const { Cell::new(false) };
+    static NO_HOIST: Cell<bool> = const { Cell::new(false) };
+    static NO_FUSION: Cell<bool> = const { Cell::new(false) };
+}
+
+/// Compiler shortcut switches: `(no const-binding cache, no loop-condition hoisting, no fused compare-and-branch)`.
+pub fn set_compiler_switches(no_const_cache: bool, no_hoist: bool, no_fusion: bool) {
+    NO_CONST_CACHE.with(|c| c.set(no_const_cache));
+    NO_HOIST.with(|c| c.set(no_hoist));
+    NO_FUSION.with(|c| c.set(no_fusion));
+}
+
+pub(crate) fn no_const_cache() -> bool {
+    NO_CONST_CACHE.with(Cell::get)
+}
+
+pub(crate) fn no_hoist() -> bool {
+    NO_HOIST.with(Cell::get)
+}
+
+pub(crate) fn no_fusion() -> bool {
+    NO_FUSION.with(Cell::get)
 }
 
 /// Depths of the VM as seen from the host: `(call frames, value-stack length, pending exception?)`.
